@@ -9,6 +9,10 @@ package main
 //       wake-up send (hook H5), the loop woken by another caller, more callers than inCh has capacity.
 
 import (
+	"github.com/ryogrid/SamehadaDB/lib/types"
+	"github.com/ryogrid/SamehadaDB/lib/storage/table/schema"
+	"github.com/ryogrid/SamehadaDB/lib/storage/table/column"
+	"github.com/ryogrid/SamehadaDB/lib/storage/index/index_constants"
 	"strings"
 	"github.com/ryogrid/SamehadaDB/lib/storage/access"
 	"fmt"
@@ -420,6 +424,7 @@ func rmIO(args []string) error {
 // several times per round while a log write is in flight: exercises the "buffer full" exits of AppendLogRecord under
 // concurrency (spec/LogBuffer).
 func rmLogStorm(args []string) error {
+	ioLite = true
 	iotw, err := trace.New(args[0])
 	if err != nil {
 		return err
@@ -428,31 +433,41 @@ func rmLogStorm(args []string) error {
 	procs, _ := strconv.Atoi(args[2])
 	runtime.GOMAXPROCS(procs)
 	rng := rand.New(rand.NewSource(envSeed()))
-	pays := []string{strings.Repeat("a", 900), strings.Repeat("b", 880), strings.Repeat("c", 910)}
+	pays := []string{strings.Repeat("a", 900), strings.Repeat("b", 900), strings.Repeat("c", 900)}
 	for w := 0; w < windows; w++ {
 		dbCounter++
 		heap := map[int]bool{}
 		delay := time.Duration(20+40*(w%3)) * time.Millisecond
 		iotw.Emit(map[string]interface{}{"ev": "Reset", "logDelayUs": int(delay / time.Microsecond)})
+		var theRec *iorec.Rec
 		samehada.VerifWrapDisk = func(d disk.DiskManager, dbName string) disk.DiskManager {
 			rec := iorec.NewRec(d)
 			rec.Hook = ioHook(iotw, heap)
 			rec.Concurrent = true
-			rec.LogDelay = delay
+			theRec = rec
 			return rec
 		}
-		e, pm := eng.Open(fmt.Sprintf("vrmls%d", dbCounter), 16000, false)
+		e, pm := eng.Open(fmt.Sprintf("vrmls%d", dbCounter), 100000, false)
 		samehada.VerifWrapDisk = nil
 		if e == nil {
 			return fmt.Errorf("open: %s", pm)
 		}
-		const ntab, nrows = 6, 120
+		const ntab, nrows = 6, 1500
 		for t := 0; t < ntab; t++ {
-			e.Exec(fmt.Sprintf("CREATE TABLE ls%d(k int, p varchar(1000));", t))
+			func() { // k indexed (skip list), the payload column not
+				cols := []*column.Column{
+					column.NewColumn("k", types.Integer, true, index_constants.IndexKindSkipList, types.PageID(-1), nil),
+					column.NewColumn("p", types.Varchar, false, index_constants.IndexKindInvalid, types.PageID(-1), nil),
+				}
+				txn := e.TM().Begin(nil)
+				e.Catalog().CreateTable(fmt.Sprintf("ls%d", t), schema.NewSchema(cols), txn)
+				e.TM().Commit(e.Catalog(), txn)
+			}()
 			for k := 0; k < nrows; k++ {
 				e.Exec(fmt.Sprintf("INSERT INTO ls%d(k, p) VALUES (%d, '%s');", t, k, pays[0]))
 			}
 		}
+		theRec.LogDelay = delay // the log device becomes slow once the tables are loaded
 		var wg sync.WaitGroup
 		var fails int32
 		for g := 0; g < ntab; g++ {
@@ -460,7 +475,7 @@ func rmLogStorm(args []string) error {
 			seed := rng.Int63()
 			go func(g int, seed int64) {
 				defer wg.Done()
-				for i := 0; i < 6 && atomic.LoadInt32(&fails) == 0; i++ {
+				for i := 0; i < 2 && atomic.LoadInt32(&fails) == 0; i++ {
 					sql := fmt.Sprintf("UPDATE ls%d SET p = '%s' WHERE k >= 0;", g, pays[(i+1)%3])
 					done := make(chan string, 1)
 					go func() {
